@@ -186,9 +186,8 @@ Conversion<Unit::TemperatureDifference, Unit::TemperatureDifference::Fahrenheit>
 }
 
 template <typename NumericType>
-inline const std::map<Unit::TemperatureDifference,
-                      std::function<void(NumericType* values, const std::size_t size)>>
-    MapOfConversionsFromStandard<Unit::TemperatureDifference, NumericType>{
+inline constexpr auto MapOfConversionsFromStandard<Unit::TemperatureDifference, NumericType>{
+  MakeConversionTable<Unit::TemperatureDifference, NumericType>({
       {Unit::TemperatureDifference::Kelvin,
        Conversions<Unit::TemperatureDifference, Unit::TemperatureDifference::Kelvin>::
            FromStandard<NumericType>},
@@ -201,12 +200,12 @@ inline const std::map<Unit::TemperatureDifference,
       {Unit::TemperatureDifference::Fahrenheit,
        Conversions<Unit::TemperatureDifference, Unit::TemperatureDifference::Fahrenheit>::
            FromStandard<NumericType>},
+})
 };
 
 template <typename NumericType>
-inline const std::map<Unit::TemperatureDifference,
-                      std::function<void(NumericType* const values, const std::size_t size)>>
-    MapOfConversionsToStandard<Unit::TemperatureDifference, NumericType>{
+inline constexpr auto MapOfConversionsToStandard<Unit::TemperatureDifference, NumericType>{
+  MakeConversionTable<Unit::TemperatureDifference, NumericType>({
       {Unit::TemperatureDifference::Kelvin,
        Conversions<Unit::TemperatureDifference, Unit::TemperatureDifference::Kelvin>::
            ToStandard<NumericType>},
@@ -219,6 +218,7 @@ inline const std::map<Unit::TemperatureDifference,
       {Unit::TemperatureDifference::Fahrenheit,
        Conversions<Unit::TemperatureDifference, Unit::TemperatureDifference::Fahrenheit>::
            ToStandard<NumericType>},
+})
 };
 
 }  // namespace Internal
